@@ -1,0 +1,10 @@
+//go:build !verif
+
+// Package verifhook provides named observation points used by the external
+// verification harness. Without the `verif` build tag every call is an empty,
+// inlinable function.
+package verifhook
+
+// At marks an observation point. It does nothing unless the `verif` build tag
+// is set.
+func At(point string, kv ...interface{}) {}
